@@ -6,7 +6,6 @@ import (
 	"github.com/tuneinsight/lattigo/v6/core/rlwe"
 	"github.com/tuneinsight/lattigo/v6/multiparty"
 	"github.com/tuneinsight/lattigo/v6/ring"
-	"github.com/tuneinsight/lattigo/v6/ring/ringqp"
 
 	"verif/harness/eng"
 	"verif/harness/ref"
@@ -78,10 +77,10 @@ func runEVK(c *eng.Ctx, cf cfg, gal bool) {
 	params := e.params
 	rnd := c.Rand()
 	nth := params.RingQ().NthRoot()
-	P := "EvaluationKeyGenProtocol"
+	P, S := "EvaluationKeyGenProtocol", "EvaluationKeyGenShare"
 	fin := "GenEvaluationKey"
 	if gal {
-		P = "GaloisKeyGenProtocol"
+		P, S = "GaloisKeyGenProtocol", "GaloisKeyGenShare"
 		fin = "GenGaloisKey"
 	}
 
@@ -149,9 +148,9 @@ func runEVK(c *eng.Ctx, cf cfg, gal bool) {
 	shareRows := func(s gshare) [][]uint64 { return gadgetRows(&s.GadgetCiphertext) }
 
 	pl := &pool{}
-	ntrials := 3
+	ntrials := 4
 	if gal {
-		ntrials = 2
+		ntrials = 3
 	}
 	for trial := 0; trial < ntrials; trial++ {
 		lq, lp, w := e.drawEvkParams(trial)
@@ -200,13 +199,19 @@ func runEVK(c *eng.Ctx, cf cfg, gal bool) {
 			c.Check(!eqRows(matRows(crps[0][0].Value), matRows(crps[0][1].Value), nil), "C14|"+P+".SampleCRP|same-crp-twice", nil)
 		}
 
+		// share buffers are allocated once per trial and reused (still holding the previous share) for the
+		// following Galois elements, as a party regenerating keys would do
+		shares := make([]gshare, e.np)
 		for gi, g := range galEls {
 			// ---- shares
-			shares := make([]gshare, e.np)
 			var gerr error
 			panicked, pv := eng.Panics(func() {
 				for i := 0; i < e.np && gerr == nil; i++ {
-					shares[i] = alloc(i, evp)
+					if gi == 0 || i%3 == 2 {
+						shares[i] = alloc(i, evp)
+					} else {
+						c.Count("share_buffers_reused", 1)
+					}
 					gerr = genShare(i, g, crps[i][gi], &shares[i])
 				}
 			})
@@ -231,7 +236,7 @@ func runEVK(c *eng.Ctx, cf cfg, gal bool) {
 				c.Check(okg, "C14|"+P+".GenShare|galois-element-not-recorded", nil)
 			}
 			blobs := make([][]byte, e.np)
-			serOK := c.Try("C14|"+P+"Share.MarshalBinary", func() {
+			serOK := c.Try("C14|"+S+".MarshalBinary", func() {
 				for i := range shares {
 					b, size, err := marshal(shares[i])
 					if err != nil {
@@ -245,7 +250,7 @@ func runEVK(c *eng.Ctx, cf cfg, gal bool) {
 					c.Count("shares_serialised", 1)
 					c.Count("serialised_bytes", int64(len(b)))
 					c.Check(len(b) == size && eqRows(shareRows(back), shareRows(shares[i]), nil) && back.GaloisElement == shares[i].GaloisElement && back.BaseTwoDecomposition == w,
-						"C14|"+P+"Share.UnmarshalBinary|share-changed-by-serialisation", nil)
+						"C14|"+S+".UnmarshalBinary|share-changed-by-serialisation", nil)
 				}
 			})
 			if !serOK {
@@ -411,5 +416,3 @@ func runEVK(c *eng.Ctx, cf cfg, gal bool) {
 func (o *ops[T]) modsKey(params rlwe.Parameters, k *rlwe.EvaluationKey) []uint64 {
 	return gadgetMods(params, &k.GadgetCiphertext)
 }
-
-var _ = ringqp.Poly{}
